@@ -207,22 +207,8 @@ func (p *peer) CountSession() int {
 // Dial connects with the peer of the destination address.
 func (p *peer) Dial(addr string, protoFunc ...ProtoFunc) (Session, *Status) {
 	var sess = newSession(p, nil, protoFunc)
-	_, err := p.dialer.dialWithRetry(addr, "", func(conn net.Conn) error {
-		sess.socket.Reset(conn, protoFunc...)
-		sess.socket.SetID(sess.LocalAddr().String())
-		if stat := p.pluginContainer.postDial(sess, false); !stat.OK() {
-			conn.Close()
-			// a hook may have indexed the session already (SetID): a refused one must not stay listed
-			p.sessHub.deleteSession(sess)
-			return stat.Cause()
-		}
-		return nil
-	})
-	if err != nil {
-		return nil, statDialFailed.Copy(err)
-	}
-
-	// create redial func
+	// the redial func is set before the dial hooks run: a hook may list the session in the index (SetID), and
+	// from then on other goroutines may look at it (Health reads this field)
 	if p.dialer.RedialTimes() != 0 {
 		sess.redialForClientLocked = func() bool {
 			oldID := sess.ID()
@@ -262,6 +248,21 @@ func (p *peer) Dial(addr string, protoFunc ...ProtoFunc) (Session, *Status) {
 			return true
 		}
 	}
+	_, err := p.dialer.dialWithRetry(addr, "", func(conn net.Conn) error {
+		sess.socket.Reset(conn, protoFunc...)
+		sess.socket.SetID(sess.LocalAddr().String())
+		if stat := p.pluginContainer.postDial(sess, false); !stat.OK() {
+			conn.Close()
+			// a hook may have indexed the session already (SetID): a refused one must not stay listed
+			p.sessHub.deleteSession(sess)
+			return stat.Cause()
+		}
+		return nil
+	})
+	if err != nil {
+		return nil, statDialFailed.Copy(err)
+	}
+
 
 	Infof("dial ok (network:%s, addr:%s, id:%s)", p.network, addr, sess.ID())
 	sess.changeStatus(statusOk)
